@@ -55,7 +55,7 @@ class Real:
             return classify(e)
 
     def canon(self, inst):
-        return G.val_of_expr(self.t, inst.to_micheline_value(mode='legacy_optimized', lazy_diff=None))
+        return G.val_of_expr(self.t, inst.to_micheline_value(mode='legacy_optimized', lazy_diff=None), inst)
 
     def to_py(self, inst, comparable=False):
         try:
@@ -75,6 +75,46 @@ class Real:
         if p2k is None:
             return 'tuple', [idx[i] for i in range(len(idx))]
         return 'dict', list(p2k.items())
+
+
+_FACTS = {}
+
+
+def fact(text):
+    """`<texthex>:<mask>:<rawhex|->`: what the library's own base58 helpers say about a string (the `valid` / `raw` parameters
+    of the model; base58 itself is C09's)"""
+    if text not in _FACTS:
+        from pytezos.crypto import encoding as E
+        mask = ''.join('1' if f(text) else '0' for f in (E.is_address, E.is_pkh, E.is_public_key, E.is_sig, E.is_chain_id))
+        try:
+            raw = E.base58_decode(text.encode()).hex() or '-'
+        except Exception:
+            raw = '-'
+        _FACTS[text] = f"{text.encode().hex() or '-'}:{mask}:{raw}"
+    return _FACTS[text]
+
+
+def with_facts(line, t):
+    """the protocol line, followed by the facts about every string it mentions (only when the type has a base58 leaf)"""
+    if not any((x[0] == 's' and x[2] in G.B58) or x[0] == 'c' for x in G.subterms(t)):
+        return line
+    texts = []
+    for tok in line.split(' '):
+        if tok.startswith('s') and len(tok) > 1 and tok != 's-' and all(c_ in '0123456789abcdef' for c_ in tok[1:]) and len(tok) % 2 == 1:
+            try:
+                texts.append(bytes.fromhex(tok[1:]).decode())
+            except ValueError:
+                pass
+    texts.append(ORIGINATED0)
+    seen = []
+    for x in texts:
+        for y in (x, x.partition('%')[0]):
+            if y not in seen and len(y) < 200 and ' ' not in y and '|' not in y:
+                seen.append(y)
+    return line + ' | ' + ' '.join(fact(x) for x in seen)
+
+
+ORIGINATED0 = 'KT1BEqzn5Wx8uJrZNvuS9DVHmLvG9td3fDLi'     # get_originated_address(0), compared with the real function in run()
 
 
 def show(x, toks):
@@ -288,6 +328,8 @@ def gen_cases(ctx):
                 t, origin = t2, 'random-lookalike'
         if rng.random() < 0.15:
             t = G.with_ann(t, G.rand_ann(rng, 0.5, 0.3))
+        if not G.inhabited(t):
+            continue
         for _ in range(rng.choice([1, 1, 2])):
             cases.append((origin, t, G.rand_value(rng, t)))
     return cases
@@ -296,19 +338,32 @@ def gen_cases(ctx):
 def run(ctx):
     st = extract.generate(PROP)
     ctx.prepare_lean(st)
-    ctx.extra['rule'] = ('random types to depth 4 over unit/bool/nat/int/mutez/timestamp/string/bytes, pair, or (incl. enums), option, list, set, '
+    ctx.extra['rule'] = ('random types to depth 4 over unit/bool/nat/int/mutez/timestamp/string/bytes, address/key_hash/key/signature/chain_id '
+                         '(valid base58 texts of every prefix: tz1-tz4, KT1, sr1 with and without %entrypoint, edpk/sppk/p2pk/BLpk, edsig/spsig/p2sig/sig/BLsig, Net; '
+                         'all-zero / all-0xff / mixed payloads), contract p, bls12_381_fr/g1/g2, never (only where the type stays inhabited), pair, or (incl. enums), option, list, set, '
                          'map, big_map with %field / :type names from a pool that contains duplicates, empty names and generated-looking names '
                          '(`nat_1`, `pair_0`, ...); about a third of the types with a pair / union node get a deliberate former collision shape '
                          '(a declared name equal to the `prim_j` another leaf of the same layout would be generated: declared before or after it, '
                          'pair or union, root or nested node, %field or :type, sometimes `prim_j_` declared as well); random values (sets / maps '
-                         'sorted, big_map literal or id); non-trivial = type has a pair, union or collection')
+                         'sorted in the library\'s own order of the key type, big_map literal or id); non-trivial = type has a pair, union or collection.  '
+                         'Leaf-form stream: every accepted and many refused input forms of each leaf (int / RFC 3339 text with offsets and fractions / '
+                         'decimal text for timestamp; int / Decimal / text incl. exponents, NaN, Infinity, >28 digits for mutez; bytes / hex text with '
+                         '0x, upper case, white space for bytes and bls12_381; int / little-endian bytes / hex for bls12_381_fr; base58 text, %default, '
+                         'broken checksum, wrong kind, bytes for the base58 leaves; None for contract), bare and inside option / list / pair / named pair / '
+                         'union / map / big_map / set, as value and as key')
     ctx.assumptions += [
         'values are those the implementation itself builds from Micheline (from_micheline_value); their Micheline coding is C11',
         'to_python_object is called with lazy_diff=None (what ContractData.decode does): with the default lazy_diff=False a big_map literal '
         'raises "Big_map id is not defined" (API nuance, not counted)',
         'Python set iteration order is modelled as list order; sound when __lt__ is a strict total order on the element type (C03)',
-        'unmodelled Python input shapes (Decimal, timestamp strings, 0x-strings for bytes, bool where int is expected) are not sent',
-        'lambda, contract, ticket, address-like and crypto types are outside the model (their objects are plain strings / source text)',
+        'unmodelled Python input shapes (bool where int is expected; bytes objects for key_hash / key / signature / chain_id, which the code '
+        'stores as they are; number text with `_` or non-ASCII digits / white space; Decimal exponents of more than 5 digits; Decimal as a dict '
+        'key) are not sent, except `1_0` for mutez (answered `unmodelled`, counted)',
+        'base58 validity (`is_address`, `is_pkh`, `is_public_key`, `is_sig`, `is_chain_id`) and `base58_decode` are parameters of the model: each '
+        'protocol line carries what the library says about the strings it mentions (C09 owns base58)',
+        'decimal arithmetic runs in Python\'s default context (prec=28, ROUND_HALF_EVEN), which the mirror follows',
+        'only public keys are sent for `key` (`is_public_key` also passes secret-key texts, on which KeyType.__lt__ raises KeyError)',
+        'lambda and ticket are outside the model; try_unpack=False',
         'ContractEntrypoint.encode/decode is checked on the real code only (composition with C13); the Lean theorem covers ContractData',
     ]
     from pytezos.michelson.types.core import unit as unit_cls
@@ -322,6 +377,10 @@ def run(ctx):
     pair_lt_lex = bool(a < b) and not bool(b < a)
     ctx.extra['tree_flags'] = {'unit_hashable': unit_hashable, 'pair_lt_lexicographic': pair_lt_lex}
 
+    from pytezos.context.abstract import get_originated_address
+    if get_originated_address(0) != ORIGINATED0:
+        ctx.mismatch('originated-address', 'get_originated_address(0)', get_originated_address(0), ORIGINATED0)
+    leaf_stream(ctx)
     cases = gen_cases(ctx)
     lines, plan = [], []
     node_seen = {}
@@ -336,12 +395,12 @@ def run(ctx):
             continue
         toks = ' '.join(G.ty_toks(t))
         en = {'origin': origin, 't': t, 'v': v, 'real': real, 'inst': inst, 'i0': len(lines)}
-        lines.append('topy ' + toks + ' ' + ' '.join(G.val_toks(v)))
+        lines.append(with_facts('topy ' + toks + ' ' + ' '.join(G.val_toks(v)), t))
         ok, py = real.to_py(inst)
         en['py'] = (ok, py)
         if ok:
             en['ofpy_line'] = len(lines)
-            lines.append('ofpy ' + toks + ' ' + ' '.join(G.py_toks(py)))
+            lines.append(with_facts('ofpy ' + toks + ' ' + ' '.join(G.py_toks(py)), t))
         en['inv_line'] = len(lines)
         lines.append('inv ' + toks)
         # layouts of every pair / union node of the type (once per distinct node)
@@ -361,13 +420,13 @@ def run(ctx):
                 kinst = kreal.value(kv) if not kreal.err else 'err'
                 if not isinstance(kinst, str):
                     en['keys'].append((kt, kv, kreal, kinst, len(lines)))
-                    lines.append('topyc ' + ' '.join(G.ty_toks(kt)) + ' ' + ' '.join(G.val_toks(kv)))
+                    lines.append(with_facts('topyc ' + ' '.join(G.ty_toks(kt)) + ' ' + ' '.join(G.val_toks(kv)), kt))
         # a malformed / non-canonical object
         if ok and ctx.rng.random() < 0.3:
             bad = mutate_py(ctx.rng, py)
             if bad is not None:
                 en['bad'] = (bad, len(lines))
-                lines.append('ofpy ' + toks + ' ' + ' '.join(G.py_toks(bad)))
+                lines.append(with_facts('ofpy ' + toks + ' ' + ' '.join(G.py_toks(bad)), t))
         plan.append(en)
     model = ctx.model(lines)
     if model and model[0] == 'unrecognised-source':
@@ -535,6 +594,10 @@ def mutate_py(rng, py):
     return None
 
 
+def has_signature(t):
+    return any(x[0] == 's' and x[2] == 'signature' for x in G.subterms(t))
+
+
 def contract_data(ctx, t, v, real, inst, py):
     """ContractData.decode / encode are mutual inverses (on values whose Micheline coding itself round-trips: timestamps kept in range)"""
     from pytezos.context.impl import ExecutionContext
@@ -544,17 +607,21 @@ def contract_data(ctx, t, v, real, inst, py):
     except Exception:
         ctx.count('contract_data', 'not-constructible')
         return
-    m = inst.to_micheline_value(mode='legacy_optimized', lazy_diff=None)
+    # the optimized Micheline form of a signature does not carry its base58 prefix (C11: the text comes back as `sig…`, same
+    # bytes), so types with a signature leaf go through the readable form, which keeps the text
+    mode = 'readable' if has_signature(t) else 'legacy_optimized'
+    m = inst.to_micheline_value(mode=mode, lazy_diff=None)
     tdesc = G.ty_str(t)
     try:
         obj = cd.decode(m)
-        m2 = cd.encode(obj, mode='legacy_optimized')
+        m2 = cd.encode(obj, mode=mode)
         obj2 = cd.decode(m2)
     except Exception as e:
         ctx.violation(f'contract-data-raises[{tdesc} | {G.val_str(v)}]', f'ContractData.decode/encode raised {classify(e)} on a value that converts back', {'type': G.ty_expr(t), 'value': m})
         return
     ctx.count('contract_data', 'checked')
-    if G.val_of_expr(t, m2) != G.val_of_expr(t, m) or G.py_toks(obj2) != G.py_toks(obj) or G.py_toks(obj) != G.py_toks(py):
+    same = (m2 == m) if G.has_instance_leaf(t) else (G.val_of_expr(t, m2) == G.val_of_expr(t, m))
+    if not same or G.py_toks(obj2) != G.py_toks(obj) or G.py_toks(obj) != G.py_toks(py):
         ctx.violation(f'contract-data-not-inverse[{tdesc} | {G.val_str(v)}]', f'{tdesc}: encode(decode(m)) = {m2}, m = {m}', {'type': G.ty_expr(t), 'value': m})
 
 
@@ -574,7 +641,7 @@ def entrypoint_stream(ctx):
         leaves = []
         for nm in names:
             lt = G.rand_type(rng, rng.choice([0, 1, 2]), storage=False)
-            if G.excluded(lt) or lt[0] == 'o':    # union-typed entrypoints (inner nodes) are C13's subject
+            if G.excluded(lt) or lt[0] == 'o' or not G.inhabited(lt):    # union-typed entrypoints (inner nodes) are C13's subject
                 continue
             leaves.append(G.with_ann(lt, (nm, None)))
         if not leaves:
@@ -608,9 +675,10 @@ def entrypoint_stream(ctx):
             ctx.count('entrypoint-stream', 'case')
             try:
                 ep = ContractEntrypoint(ectx, e)
-                params = ep.encode(obj, mode='legacy_optimized')
+                mode = 'readable' if has_signature(pt) else 'legacy_optimized'     # see contract_data
+                params = ep.encode(obj, mode=mode)
                 dec = ep.decode(params['value'], entrypoint=params['entrypoint'])
-                again = ContractEntrypoint(ectx, e).encode(dec[e], mode='legacy_optimized') if isinstance(dec, dict) and e in dec else None
+                again = ContractEntrypoint(ectx, e).encode(dec[e], mode=mode) if isinstance(dec, dict) and e in dec else None
             except Exception as ex:
                 ctx.violation(f'contract-entrypoint-raises[{G.ty_str(pt)} | {e} | {G.val_str(v)}]', f'ContractEntrypoint.encode/decode raised {type(ex).__name__}: {str(ex)[:200]}', desc)
                 continue
@@ -621,3 +689,217 @@ def entrypoint_stream(ctx):
             if not good:
                 ctx.violation(f'contract-entrypoint-not-inverse[{G.ty_str(pt)} | {e} | {G.val_str(v)}]',
                               f'encode -> {params}; decode -> {dec!r}; expected {{{e!r}: {obj!r}}}', desc)
+
+
+# ---------------------------------------------------------------------------------------------- input forms of the leaves
+def _rfc(t):
+    """RFC 3339 text of a unix time, written without pytezos"""
+    import datetime
+    d = datetime.datetime(1970, 1, 1) + datetime.timedelta(seconds=t)
+    return '%04d-%02d-%02dT%02d:%02d:%02dZ' % (d.year, d.month, d.day, d.hour, d.minute, d.second)
+
+
+def _mangle(text):
+    """the same base58 text with one character changed (checksum broken)"""
+    i = len(text) // 2
+    return text[:i] + ('2' if text[i] != '2' else '3') + text[i + 1:]
+
+
+def leaf_forms(rng):
+    """[(scalar / contract type, Python object, expected)]: expected = the value tree the object stands for, 'reject', or None
+    (accepted or not is left to the comparison with the model: context rounding of Decimal, negative zero amounts, fractions of
+    a second).  The meaning is stated here on its own: calendar arithmetic by `datetime`, amounts by `fractions.Fraction`."""
+    from decimal import Decimal
+    from fractions import Fraction
+    P = G.pools()
+    S = lambda sc: ('s', G.NOANN, sc)
+    out = []
+    # ---- timestamp: int, RFC 3339 text, decimal text
+    ts = [0, -1, 1, 1700000000, -62135596800, 253402300799, 951782400, 68169599, rng.randrange(-62135596800, 253402300800), rng.randrange(0, 2 * 10 ** 9)]
+    for t in ts:
+        out.append((S('timestamp'), _rfc(t), ('I', t)))
+        out.append((S('timestamp'), str(t), ('I', t)))
+    t = rng.choice(ts)
+    hh, mm = rng.randrange(0, 24), rng.randrange(0, 60)
+    out.append((S('timestamp'), _rfc(t)[:-1] + '+%02d:%02d' % (hh, mm), ('I', t - hh * 3600 - mm * 60)))
+    out.append((S('timestamp'), _rfc(t)[:-1] + '-%02d:%02d' % (hh, mm), ('I', t + hh * 3600 + mm * 60)))
+    out.append((S('timestamp'), _rfc(t)[:-1] + '.5Z', None))
+    out.append((S('timestamp'), _rfc(t)[:-1] + '.999999999999Z', None))
+    for n in (2 ** 40, -2 ** 40, 253402300800, -62135596801):
+        out.append((S('timestamp'), n, ('I', n)))
+        out.append((S('timestamp'), str(n), ('I', n)))
+    out += [(S('timestamp'), ' 12 ', ('I', 12)), (S('timestamp'), '+7', ('I', 7)), (S('timestamp'), '-5', ('I', -5)), (S('timestamp'), '007', ('I', 7)),
+            (S('timestamp'), '\t3\n', ('I', 3))]
+    for bad in ('x', '', ' ', '2020-13-01T00:00:00Z', '2021-02-29T00:00:00Z', '2020-02-30T00:00:00Z', '1970-01-01t00:00:00z', '1970-01-01T00:00:60Z', '1970-01-01T24:00:00Z',
+                '1970-01-01 00:00:00Z', '1970-01-01T00:00:00', '0000-01-01T00:00:00Z', '1.5', '1e3', '- 5', '0x10', b'\x01', None, (1,)):
+        out.append((S('timestamp'), bad, 'reject'))
+    out.append((S('timestamp'), '2020-02-29T23:59:59Z', ('I', 1583020799)))
+    # ---- mutez: int, Decimal, text (an amount in tez)
+    for n in (0, 1, 2 ** 63 - 1, rng.randrange(10 ** 12)):
+        out.append((S('mutez'), n, ('I', n)))
+    out += [(S('mutez'), 2 ** 63, 'reject'), (S('mutez'), -1, 'reject')]
+    texts = ['0', '1', '1.5', '0.000001', '0.0000019', '1E+3', '1e3', '2.5E-3', '.5', '5.', ' 2 ', '+3', '007.10', '9223372036854.775807', '12345.678901',
+             '%d.%06d' % (rng.randrange(10 ** 6), rng.randrange(10 ** 6)), '%d' % rng.randrange(10 ** 9), '0e5', '0.0', '1_0']
+    for x in texts:
+        want = None
+        if '_' not in x:
+            q = Fraction(x.strip()) * 10 ** 6
+            want = ('I', q.numerator // q.denominator)
+        out.append((S('mutez'), x, want))
+        if '_' not in x:
+            out.append((S('mutez'), Decimal(x), want))
+    for bad in ('9223372036854.775808', '1e30', '-1', '-0.000001', 'NaN', 'nan', 'sNaN', 'Infinity', '-Infinity', 'inf', 'abc', '', ' ', '1e', '--1', '1.2.3', 'e5', '.', '0x10', '1 000', b'\x01', None):
+        out.append((S('mutez'), bad, 'reject'))
+    for bad in ('-1', 'NaN', 'Infinity', '9223372036854.775808'):
+        out.append((S('mutez'), Decimal(bad), 'reject'))
+    for odd in ('-0.0000001', '-0', '0.9999999999999999999999999999999', '1.0000000000000000000000000000001', '123456789012.1234567890123456789012', '0.99999949999999999999999999999999',
+                '2.0000005000000000000000000000000', '2.0000015000000000000000000000000', '0.%s' % ''.join(rng.choice('0123456789') for _ in range(rng.randrange(20, 40)))):
+        out.append((S('mutez'), odd, None))
+        out.append((S('mutez'), Decimal(odd), None))
+    # ---- bytes and the bls12_381 points: bytes, hex text (optional 0x)
+    for sc in ('bytes', 'bls12_381_g1', 'bls12_381_g2'):
+        for b in (b'', b'\x00', b'\x0a\xff', bytes(96), bytes(range(192)), bytes(rng.randrange(256) for _ in range(rng.randrange(1, 8)))):
+            out.append((S(sc), b, ('x', b)))
+            out.append((S(sc), b.hex(), ('x', b)))
+            out.append((S(sc), '0x' + b.hex(), ('x', b)))
+            out.append((S(sc), b.hex().upper(), ('x', b)))
+        out += [(S(sc), '0a ff', ('x', b'\x0a\xff')), (S(sc), '0a\tff\n', ('x', b'\x0a\xff')), (S(sc), ' 0a', ('x', b'\x0a'))]
+        for bad in ('zz', 'abc', '0X0a', '0 a', '0x0x', 'a', 5, None, [1]):
+            out.append((S(sc), bad, 'reject'))
+    # ---- bls12_381_fr: int (any, taken modulo the order), little-endian bytes (at most 32), hex text
+    p = G.FR_MODULUS
+    for n in (0, 1, -1, p - 1, p, p + 5, 2 ** 256, -p - 3, rng.randrange(p), rng.randrange(-10 ** 9, 10 ** 9)):
+        out.append((S('bls12_381_fr'), n, ('I', n % p)))
+    for b in (b'', b'\x01', b'\x01\x00', b'\x00\x01', b'\xff' * 32, bytes(31) + b'\x80', bytes(rng.randrange(256) for _ in range(rng.randrange(1, 33)))):
+        out.append((S('bls12_381_fr'), b, ('I', int.from_bytes(b, 'little') % p)))
+        out.append((S('bls12_381_fr'), '0x' + b.hex(), ('I', int.from_bytes(b, 'little') % p)))
+        out.append((S('bls12_381_fr'), b.hex(), ('I', int.from_bytes(b, 'little') % p)))
+    for bad in (bytes(33), '0x' + '00' * 33, 'zz', None, (1,)):
+        out.append((S('bls12_381_fr'), bad, 'reject'))
+    # ---- base58 leaves: the text itself; an address / contract loses `%default`; anything else is refused
+    for sc in G.B58:
+        for x in rng.sample(P[sc], min(4, len(P[sc]))):
+            out.append((S(sc), x, ('s', x)))
+            if '%' in x:
+                continue
+            out.append((S(sc), _mangle(x), 'reject'))
+            out.append((S(sc), x[:-1], 'reject'))
+            out.append((S(sc), x + '1', 'reject'))
+        for other in G.B58:
+            if other != sc and not (sc == 'address' and other == 'key_hash'):
+                out.append((S(sc), rng.choice([y for y in P[other] if '%' not in y and not (sc == 'key_hash' and y.startswith('tz'))]), 'reject'))
+        for bad in ('', 'tz1', 5, None, ('a',), '%default'):
+            out.append((S(sc), bad, 'reject'))
+    out.append((S('address'), rng.choice(P['key_hash']), None))         # an implicit account is an address too
+    out.append((S('key_hash'), P['address'][-1], 'reject'))
+    out.append((S('address'), P['address'][0].encode(), 'reject'))
+    for ct in (S('address'), ('c', G.NOANN, S('unit')), ('c', G.NOANN, ('p', G.NOANN, S('nat'), S('address')))):
+        for x in rng.sample([y for y in P['address'] if '%' not in y], 3):
+            out.append((ct, x + '%default', ('s', x)))
+            out.append((ct, x + '%', ('s', x + '%')))
+            out.append((ct, x + '%default%x', ('s', x + '%default%x')))
+            out.append((ct, x + '%Default', ('s', x + '%Default')))
+            out.append((ct, x + '%foo', ('s', x + '%foo')))
+            out.append((ct, '%default' + x, 'reject'))
+    for ct in (('c', G.NOANN, S('unit')), ('c', G.NOANN, S('nat'))):
+        out.append((ct, None, ('s', ORIGINATED0)))
+        out.append((ct, rng.choice(P['address']), None))
+        out.append((ct, 7, 'reject'))
+        out.append((ct, rng.choice(P['key']), 'reject'))
+    # ---- unit, never
+    from pytezos.michelson.types.core import Unit
+    out += [(S('unit'), None, ('U',)), (S('unit'), Unit, ('U',)), (S('unit'), 0, 'reject'), (S('unit'), 'Unit', 'reject'),
+            (S('never'), None, 'reject'), (S('never'), Unit, 'reject'), (S('never'), 0, 'reject')]
+    return out
+
+
+def wrap_form(rng, t, obj, want):
+    """put a leaf form inside an option / list / pair / map / big_map / set (as a key too, where the type is comparable and the
+    object hashable): (type, object, expected)"""
+    comparable = t[0] == 's' and t[2] in G.COMPARABLE
+    try:
+        hash(obj)
+        hashable = True
+    except TypeError:
+        hashable = False
+    nat = ('s', G.NOANN, 'nat')
+    choices = ['id', 'id', 'option', 'list', 'pair', 'named-pair', 'map-value', 'big_map-value', 'or']
+    if comparable and hashable:
+        choices += ['set', 'map-key', 'big_map-key', 'pair-key']
+    k = rng.choice(choices)
+    W = (lambda f: want if want in ('reject', None) else f(want))
+    if k == 'id':
+        return t, obj, want
+    if k == 'option':
+        return ('O', G.NOANN, t), obj, (want if obj is None and t[2] not in ('unit',) and t[0] == 's' else W(lambda w: ('J', w))) if not (obj is None) else None
+    if k == 'list':
+        return ('l', G.NOANN, t), [obj], W(lambda w: ('l', [w]))
+    if k == 'pair':
+        return ('p', G.NOANN, t, nat), (obj, 7), W(lambda w: ('P', w, ('I', 7)))
+    if k == 'named-pair':
+        return ('p', G.NOANN, G.with_ann(t, ('x', None)), G.with_ann(nat, ('n', None))), {'n': 7, 'x': obj}, W(lambda w: ('P', w, ('I', 7)))
+    if k == 'or':
+        return ('o', G.NOANN, G.with_ann(nat, ('a', None)), G.with_ann(t, ('b', None))), {'b': obj}, W(lambda w: ('R', w))
+    if k == 'map-value':
+        return ('m', G.NOANN, nat, t), {3: obj}, W(lambda w: ('m', [(('I', 3), w)]))
+    if k == 'big_map-value':
+        return ('b', G.NOANN, nat, t), {3: obj}, W(lambda w: ('b', [(('I', 3), w)]))
+    if k == 'set':
+        return ('S', G.NOANN, t), [obj], W(lambda w: ('S', [w]))
+    if k == 'map-key':
+        return ('m', G.NOANN, t, nat), {obj: 3}, W(lambda w: ('m', [(w, ('I', 3))]))
+    if k == 'big_map-key':
+        return ('b', G.NOANN, t, nat), {obj: 3}, W(lambda w: ('b', [(w, ('I', 3))]))
+    return ('m', G.NOANN, ('p', G.NOANN, t, nat), nat), {(obj, 1): 3}, W(lambda w: ('m', [(('P', w, ('I', 1)), ('I', 3))]))
+
+
+def leaf_stream(ctx):
+    """from_python_object on every accepted input form of the leaves (and on refused ones), bare and inside containers: the real
+    classes against the Lean mirror, and against the meaning stated in `leaf_forms`"""
+    rng = ctx.rng
+    forms = leaf_forms(rng)
+    if ctx.tier != 'quick':
+        for _ in range(5):
+            forms += leaf_forms(rng)
+    plan, lines = [], []
+    for t0, obj0, want0 in forms:
+        for rep in range(2):
+            t, obj, want = (t0, obj0, want0) if rep == 0 else wrap_form(rng, t0, obj0, want0)
+            real = Real(t)
+            if real.err:
+                ctx.count('leaf-forms', 'type-rejected')
+                continue
+            try:
+                toks = G.py_toks(obj)
+            except ValueError:
+                continue
+            plan.append((t, obj, want, real, len(lines)))
+            lines.append(with_facts('ofpy ' + ' '.join(G.ty_toks(t)) + ' ' + ' '.join(toks), t))
+    model = ctx.model(lines)
+    if model and model[0] == 'unrecognised-source':
+        model = None
+    for t, obj, want, real, idx in plan:
+        desc = {'type': G.ty_str(t), 'object': repr(obj)[:160]}
+        ctx.case(desc, nontrivial=True)
+        leaf = next(x for x in G.subterms(t) if x[0] in 'sc' and not (x == ('s', G.NOANN, 'nat') and t[0] != 's'))
+        ctx.count('leaf-forms', G.prim(leaf) + ':' + type(obj).__name__ + ':' + ('reject' if want == 'reject' else 'meaning' if want else 'model-only'))
+        back = real.of_py(obj)
+        got = show(back, G.val_toks)
+        if model is not None:
+            m = model[idx]
+            if m == 'unmodelled':
+                ctx.count('leaf-forms', 'unmodelled')
+            elif not (got.startswith('err:') and m.startswith('err:')) and got != m:
+                ctx.mismatch('from-python-object-leaf-forms', desc, got, m)
+        key = f'{G.ty_str(t)} | {obj!r}'[:200]
+        if want == 'reject' and not isinstance(back, str):
+            ctx.violation(f'leaf-form-accepted[{key}]', f'{G.ty_str(t)}: from_python_object({obj!r}) = {G.val_str(back)} (expected a refusal)', {'type': G.ty_expr(t), 'object': repr(obj)})
+        elif want not in ('reject', None) and back != want:
+            ctx.violation(f'leaf-form-meaning[{key}]', f'{G.ty_str(t)}: from_python_object({obj!r}) = {got if isinstance(back, str) else G.val_str(back)} '
+                          f'(expected {G.val_str(want)})', {'type': G.ty_expr(t), 'object': repr(obj)})
+        elif want not in ('reject', None):
+            # object -> value -> object -> value: the object a value is shown as converts back to it
+            inst = real.cls.from_python_object(obj)
+            ok, py = real.to_py(inst)
+            if not ok or real.of_py(py) != want:
+                ctx.violation(f'leaf-form-roundtrip[{key}]', f'{G.ty_str(t)}: {obj!r} -> value -> {py!r} does not convert back to the value', {'type': G.ty_expr(t), 'object': repr(obj)})
